@@ -130,6 +130,19 @@ def enrich(S):
                                                 c.ing.add("ZERO")
         if "LIT:0" in c.ing and "CMP" in c.ing and "COMMIT" not in c.ing:
             c.ing.add("ZERO")
+    # (3) a check moved into a helper `fn verify(..) -> Result`: the caller's `?` on its result is a
+    # check with the helper's ingredients
+    by_owner = defaultdict(list)
+    for c in cs:
+        by_owner[c.body.owner].append(c)
+    for c in cs:
+        for cbi, names in c.calls:
+            for n in names:
+                for c2 in by_owner.get(n, []):
+                    if c2 is c or c2.body.owner == c.body.owner:
+                        continue
+                    if c2.labels & c.labels or not c2.labels:
+                        c.ing |= {x for x in c2.ing if x not in ("DISCR",)}
     return cs
 
 
@@ -552,6 +565,9 @@ def describe_switch_cond(S, bk, b, x):
             nm = b.locals[n[1]]["name"]
             if nm:
                 info["names"].add(nm)
+            # captured variables are fields of the closure / coroutine environment
+            if n[1] == 1 and n[2] not in (None, "*") and n[2] < len(b.upvars):
+                info["names"].add(b.upvars[n[2]].replace("_ref__", ""))
     info["comp"] = any(S.labels_of(n) for n in back)
     # result of a call in the predecessor (e.g. contains / ne)
     for pb in b.pred()[x]:
